@@ -257,7 +257,7 @@ func verifUniverse() *verifU {
 	// config "route5": two more tokens X (4) and Y (5) and the pools (2,4), (4,5),
 	// (5,2), all concrete, so that the cyclic route 2 -> 4 -> 5 -> 2 -> 0 exists
 	// (with pool20).  Only A holds X and Y.
-	if verifConfig("route5") == 1 {
+	if verifConfig("route5") >= 1 {
 		e := func(n, d int64) *big.Int {
 			v := new(big.Int).Mul(big.NewInt(n), new(big.Int).Exp(big.NewInt(10), big.NewInt(18), nil))
 			return v.Add(v, big.NewInt(d))
@@ -298,7 +298,7 @@ func verifUniverse() *verifU {
 	verifAssume(vol[verifCoinToken].Cmp(max2) <= 0)
 	verifAssume(max2.Cmp(maxCoinSupply) <= 0)
 	st.Coins.CreateToken(verifCoinToken, verifSym("TOK"), "token", true, true, vol[verifCoinToken], max2, &ownerA)
-	if verifConfig("route5") == 1 {
+	if verifConfig("route5") >= 1 {
 		st.App.SetCoinsCount(5)
 	} else if verifConfig("lp10") != 1 {
 		st.App.SetCoinsCount(2)
